@@ -30,6 +30,9 @@ const rtPath = "gitlab.com/yawning/secp256k1-voi/internal/verifrt"
 var Packages = []string{".", "secec", "secec/bitcoin", "secec/h2c", "internal/field", "internal/swu", "internal/helpers",
 	"internal/fiat/secp256k1montgomery", "internal/fiat/secp256k1montgomeryscalar"}
 
+// hasGo is set when an instrumented library file contains a go statement (the library starts goroutines of its own).
+var hasGo bool
+
 type state struct {
 	next      int
 	funcNames map[int]string
@@ -90,6 +93,7 @@ func rewriteLockStmts(list []ast.Stmt) {
 }
 
 func Instrument(repo, outDir, mode, _ string) (map[string]string, error) {
+	hasGo = false
 	st := &state{next: 1, funcNames: map[int]string{}, sites: map[int]string{}}
 	overlay := map[string]string{}
 	for _, p := range Packages {
@@ -132,6 +136,12 @@ func Instrument(repo, outDir, mode, _ string) (map[string]string, error) {
 					Args: []ast.Expr{&ast.BasicLit{Kind: token.INT, Value: fmt.Sprint(id)}, e},
 				}
 			}
+			ast.Inspect(f, func(nd ast.Node) bool {
+				if _, ok := nd.(*ast.GoStmt); ok {
+					hasGo = true
+				}
+				return true
+			})
 			if RewriteLocks && mode == "sched" {
 				ast.Inspect(f, func(nd ast.Node) bool {
 					switch x := nd.(type) {
@@ -221,7 +231,7 @@ func Instrument(repo, outDir, mode, _ string) (map[string]string, error) {
 		return nil, err
 	}
 	var tb bytes.Buffer
-	fmt.Fprintf(&tb, "package verifrt\n\nconst NumIDs = %d\n\nvar FuncNames = map[int]string{\n", st.next)
+	fmt.Fprintf(&tb, "package verifrt\n\nconst NumIDs = %d\n\n// HasGo: the instrumented library contains go statements\nconst HasGo = %v\n\nvar FuncNames = map[int]string{\n", st.next, hasGo)
 	ids := make([]int, 0, len(st.funcNames))
 	for id := range st.funcNames {
 		ids = append(ids, id)
